@@ -58,9 +58,9 @@ def hasNonZeroDb (s : State) : Bool := s.dbs.any fun (i, d) => i != 0 && !d.stor
 
 def lossyVal : Val → Bool
   | .list _ => true | .set _ _ => true | .zset _ _ => true | .ilist _ => true | .nil => true
-  | .int i => decide (i.natAbs > 9007199254740992)
+  | .int _ => true      -- comes back as float64: the text is the same below 2^53, but INCR / DECR no longer accept it
   | .str s => !isAscii s
-  | .hash h => h.any fun (f, v) => !isAscii f || (match v with | .str s => !isAscii s | .int i => decide (i.natAbs > 9007199254740992) | _ => false)
+  | .hash h => h.any fun (f, v) => !isAscii f || (match v with | .str s => !isAscii s | .int _ => true | _ => false)
   | _ => false
 
 def stateLossy (now : Int) (s : State) : Bool :=
